@@ -1,5 +1,8 @@
 """C35 — Bitswap per-peer want-list converges to the client's current wants (spec/BitswapMQ)."""
+import collections
 import re
+import threading
+import time
 
 META = dict(
     spec="BitswapMQ",
@@ -8,9 +11,11 @@ META = dict(
                 "message limits 1/2/unbounded entries, with/without HAVE support) and proves Converged, "
                 "CancelNeverLeftActive and WantNeverUnsent for the ideal protocol; the real MessageQueue (real runQueue, "
                 "sendMessage, extractOutgoingMessage) runs in a synctest bubble with its message builder gated, under "
-                "TLC-sampled and counterexample-derived schedules and under 2-3 concurrent producer goroutines; every "
-                "producer call, gate passage, emptiness test, sent message and idle point is validated by TLC against the "
-                "spec, with the property evaluated at every step."),
+                "TLC-sampled and counterexample-derived schedules, under a class-stratified sample of the exhaustively "
+                "enumerated histories in which requests of different kinds meet on one CID (with and without HAVE support, "
+                "closed by cancels) and under 2-3 concurrent producer goroutines; every producer call, gate passage, "
+                "emptiness test, sent message and idle point -- the last two together with the queue's pending/sent/cancel "
+                "lists -- is validated by TLC against the spec, with the property evaluated at every step."),
     level_note=("Trusted: testing/synctest, the fake sender/network, go-cid; harness projection (CID numbering, "
                 "age = MaxInt32 - priority + 1, size limits 1/60/100 bytes = 1/2/3 entries). Not covered: "
                 "sendMessageCutoff (>=256 pending) inner loop, periodic (30 s) rebroadcast timer, send errors, "
@@ -52,6 +57,110 @@ DIRECTED = [
     dict(sh=False, maxN=2, steps=op("bcst", ks=[1, 2, 3]) + op("wants", wb=[2], wh=[4]) + L(12) + op("cancels", ks=[1, 2]) + L(6) + op("rb") + L(8)),
     dict(sh=True, maxN=3, steps=op("wants", wb=[1, 2], wh=[3, 4]) + op("bcst", ks=[1, 5]) + L(3) + op("cancels", ks=[2]) + op("wants", wb=[3]) + L(12) + op("rb") + L(10)),
 ]
+
+
+def mix_tags(sc):
+    """Classes of a schedule of the Mix family (GenBitswapMQMix), read off the MODEL's annotations: st of a producer
+    label = rows <<c, ps, bs, pp, bp, cancels, held>> before the call, st of a snapshot label = rows <<c, ps, bs>> of
+    the peer want-haves the no-HAVE filter dropped.  p1/p2 = peer want-have/-block, b = broadcast want-have."""
+    tags = set()
+    for s in sc["steps"]:
+        rows = s.get("st") or []
+        st = {r[0]: r for r in rows}
+        o = s["op"]
+        if o == "wants":
+            if set(s["wb"]) & set(s["wh"]):
+                tags.add("have+block-in-one-call")
+            for lst, t in ((s["wh"], 1), (s["wb"], 2)):
+                for c in lst:
+                    _, ps, bs, pp, bp, cn, _held = st[c]
+                    if ps and ps != t:
+                        tags.add("p%d-meets-sent-p%d" % (t, ps))
+                    if pp and pp != t:
+                        tags.add("p%d-meets-pending-p%d" % (t, pp))
+                    if bs:
+                        tags.add("p%d-meets-sent-b" % t)
+                    if bp:
+                        tags.add("p%d-meets-pending-b" % t)
+                    if cn:
+                        tags.add("p%d-meets-cancel%d" % (t, cn))
+        elif o == "bcst":
+            for c in s["ks"]:
+                _, ps, bs, pp, bp, cn, _held = st[c]
+                if ps:
+                    tags.add("b-meets-sent-p%d" % ps)
+                if pp:
+                    tags.add("b-meets-pending-p%d" % pp)
+                if cn:
+                    tags.add("b-meets-cancel%d" % cn)
+        elif o == "cancels":
+            for c in s["ks"]:
+                _, ps, bs, pp, bp, cn, _held = st[c]
+                on = [n for n, x in (("sentP", ps), ("sentB", bs), ("pendP", pp), ("pendB", bp)) if x]
+                if len(on) >= 2:
+                    tags.add("cancel-meets-" + "+".join(on))
+        elif o == "rb":
+            for _, ps, bs, pp, bp, cn, _held in rows:
+                if ps and bs:
+                    tags.add("rb-with-sent-p%d+b" % ps)
+        elif o == "L":
+            for c, ps, bs in rows:
+                tags.add("filter-drops-have/sent-p%d-b%d" % (ps, bs))
+    return {("have:" if sc["sh"] else "nohave:") + t for t in tags}
+
+
+def class_cover(scs, k, rng):
+    """greedy set cover: every class of the family is replayed at least k times (or as often as it exists)"""
+    idx = list(range(len(scs)))
+    rng.shuffle(idx)
+    tg = {i: mix_tags(scs[i]) for i in idx}
+    total = collections.Counter(t for i in idx for t in tg[i])
+    have = collections.Counter()
+    chosen = []
+    pool = [i for i in idx if tg[i]]
+    while True:
+        need = {c for c in total if have[c] < min(k, total[c])}
+        if not need:
+            break
+        best = max(pool, key=lambda i: len(tg[i] & need))      # first maximum in the shuffled order
+        pool.remove(best)
+        chosen.append(best)
+        for t in tg[best]:
+            have[t] += 1
+    return [scs[i] for i in chosen], total, have
+
+
+def recorded_classes(recs):
+    """What the RECORDED runs contain, from their Invoke events: per run (Reset..) and CID the kinds of wants
+    requested since the last cancel; a second kind = a type mix on that CID, a cancel after a mix closes it."""
+    cnt = collections.Counter()
+    sh, kinds, runs = None, {}, collections.Counter()
+    seen = set()
+    for r in recs + [dict(ev="Reset", sh=None)]:
+        if r["ev"] == "Reset":
+            if sh is not None:
+                for t in seen:
+                    runs[t] += 1
+            sh, kinds, seen = r.get("sh"), {}, set()
+        elif r["ev"] == "Invoke":
+            pre = "have:" if sh else "nohave:"
+            adds = [(c, "b") for c in r["ks"]] if r["op"] == "bcst" else \
+                   [(c, "p1") for c in r["wh"]] + [(c, "p2") for c in r["wb"]] if r["op"] == "wants" else []
+            for c, kd in adds:
+                old = kinds.setdefault(c, [])
+                for o in old:
+                    if o != kd:
+                        cnt[pre + "%s-after-%s" % (kd, o)] += 1
+                        seen.add(pre + "mix")
+                if kd not in old:
+                    old.append(kd)
+            if r["op"] == "cancels":
+                for c in r["ks"]:
+                    if len(kinds.get(c, [])) >= 2:
+                        cnt[pre + "cancel-after-mix"] += 1
+                        seen.add(pre + "cancel-after-mix")
+                    kinds[c] = []
+    return dict(events=dict(sorted(cnt.items())), runs=dict(sorted(runs.items())))
 
 
 def validate(ctx, recs, name, negative=None, timeout=1500):
@@ -110,33 +219,119 @@ def run(ctx):
                         "fewer than sendMessageCutoff (256) entries pending; no send errors; runs shorter than the "
                         "15 s periodic rebroadcast timer (RebroadcastNow is used instead)"]
     ctx.cov["rule"] = ("M: all interleavings of producer sections, signals and the 7 loop steps for 2 CIDs. "
-                       "G: schedules = TLC -simulate samples of the as-built model (3 CIDs, calls with 1-2 CIDs) plus the "
-                       "counterexample schedules; the harness executes each step with the loop parked at a gate and logs "
-                       "the resulting events. T: concurrent goroutines (2-3 producers, gate controller, rebroadcaster) "
-                       "over 4-10 CIDs. All events are validated by TraceBitswapMQ (silent steps existential). "
+                       "G: schedules = TLC -simulate samples of the as-built model (3 CIDs, calls with 1-2 CIDs), the "
+                       "counterexample schedules, and the Mix family: BFS over all 2-3 call histories on one CID "
+                       "(bcst / want-block / want-have / both / cancel / rebroadcast x gap none|window|drain x HAVE support, "
+                       "closing cancel), classified by the model's state at each call, every class replayed >= 1 (quick) / 3 "
+                       "times; the harness executes each step with the loop parked at a gate and logs "
+                       "the resulting events. T: concurrent goroutines (2-3 producers, half of their calls on one hot CID, "
+                       "gate controller, rebroadcaster) over 4-10 CIDs, half of the runs without HAVE support. "
+                       "All events are validated by TraceBitswapMQ (silent steps existential; Send and Idle carry the "
+                       "code's tracking lists = the spec's locked state). "
                        "non-trivial = run with >=2 Send events and at least one cancel on the wire or withdrawn entry")
-    # ---- M
-    ctx.tlc_mc(SPEC, "MCBitswapMQ.tla", "MCBitswapMQ.cfg" if ctx.quick else "MCBitswapMQ4.cfg", timeout=3000,
-               coverage=not ctx.quick)
+    ctx.open_devs()          # (fills the findings cache before any thread starts)
+    ctx.specdir(SPEC)
+
+    # ---- M (in a thread of its own: it is the longest phase and needs nothing from the others)
+    def phase_m():
+        ctx.tlc_mc(SPEC, "MCBitswapMQ.tla", "MCBitswapMQ.cfg" if ctx.quick else "MCBitswapMQ4.cfg", timeout=3000,
+                   coverage=not ctx.quick)
+        if not ctx.quick:
+            # each as-built alternative alone must break the model (otherwise the deviation is not the defect)
+            for flag in ("ReAdd", "Refresh", "Empty", "Mark", "Merge"):
+                r = ctx.tlc_mc(SPEC, "MCBitswapMQ.tla", "MCBitswapMQ_%s.cfg" % flag, timeout=3000, expect_violation=True)
+                if not r["violated"]:
+                    ctx.broken("as-built alternative %s does not violate the property in the model" % flag)
+    def guarded():
+        try:
+            phase_m()
+        except Exception as e:      # noqa: BLE001 -- a dead phase M is a broken check, never a verdict
+            ctx.broken("phase M died: %r" % (e,))
+    th_m = threading.Thread(target=guarded)
+    th_m.start()
+    time.sleep(0.5)
+    try:
+        recsG, recsT = phase_gt(ctx)
+    finally:
+        th_m.join()
+    if recsG is None or ctx.brokens:
+        return
+
+    def corrupt(rs):
+        idx = [i for i, r in enumerate(rs) if r["ev"] == "Send" and any(not e["cancel"] for e in r["entries"])]
+        if not idx:
+            return None, None
+        i = idx[len(idx) // 2]
+        bad = [dict(r) for r in rs]
+        es = [dict(e) for e in bad[i]["entries"]]
+        j = [n for n, e in enumerate(es) if not e["cancel"]][0]
+        es[j]["t"] = 3 - es[j]["t"]          # want-have <-> want-block
+        bad[i]["entries"] = es
+        return bad, i
+
+    def corrupt_st(rs):
+        # second negative control: the queue "forgets" one sent want (one row of a logged tracking-list state)
+        idx = [i for i, r in enumerate(rs) if r["ev"] in ("Send", "Idle") and any(row[1] or row[2] for row in r["st"])]
+        if not idx:
+            return None, None
+        i = idx[len(idx) // 2]
+        bad = [dict(r) for r in rs]
+        rows = [list(row) for row in bad[i]["st"]]
+        j = [n for n, row in enumerate(rows) if row[1] or row[2]][0]
+        rows[j][1] = rows[j][2] = 0
+        bad[i]["st"] = [row for row in rows if any(row[1:])]
+        return bad, i
+    if validate(ctx, recsG, "sched", negative=corrupt):
+        # (the second control on a prefix: up to the end of the run that holds the corrupted event)
+        bad, i = corrupt_st(recsG)
+        if bad is None:
+            ctx.broken("no logged tracking-list state with a sent want: the state binding is vacuous")
+        else:
+            end = min([j for j in range(i + 1, len(bad)) if bad[j]["ev"] == "Reset"] or [len(bad)])
+            r3 = ctx.tlc_trace(SPEC, "TraceBitswapMQ.tla", "TraceBitswapMQ.cfg",
+                               ctx.write_ndjson("sched_negst.ndjson", bad[:end]), timeout=1500, devs=ctx.open_devs())
+            if r3["accepted"] or r3["hwm"] != i:
+                ctx.broken("negative control (forgotten sent want in the logged state) not rejected where expected "
+                           "(accepted=%s hwm=%s want=%s)" % (r3["accepted"], r3["hwm"], i))
+    validate(ctx, recsT, "conc")
+
+
+def phase_gt(ctx):
+    """generators, build, replay (G) and concurrent recording (T); returns the two recorded traces"""
+    # ---- G: schedules.  (a) the Mix family: exhaustive BFS, classified by the model, class-stratified sample
+    mix_all = ctx.tlc_gen(SPEC, "GenBitswapMQMix.tla", "GenBitswapMQMix.cfg" if ctx.quick else "GenBitswapMQMix3.cfg",
+                          timeout=1500, workers=1 if ctx.quick else 4)
     if not ctx.quick:
-        # each as-built alternative alone must break the model (otherwise the deviation is not the defect)
-        for flag in ("ReAdd", "Refresh", "Empty", "Mark", "Merge"):
-            r = ctx.tlc_mc(SPEC, "MCBitswapMQ.tla", "MCBitswapMQ_%s.cfg" % flag, timeout=3000, expect_violation=True)
-            if not r["violated"]:
-                ctx.broken("as-built alternative %s does not violate the property in the model" % flag)
-    # ---- G: schedules
+        mix_all += ctx.tlc_gen(SPEC, "GenBitswapMQMix.tla", "GenBitswapMQMixW.cfg", timeout=1500, workers=4)
+    if not mix_all:
+        return None, None
+    mix, total, have = class_cover(mix_all, 1 if ctx.quick else 3, ctx.rng)
+    ctx.rng.shuffle(mix)
+    need = [c for c in ("nohave:filter-drops-have/sent-p2-b0", "nohave:p1-meets-sent-p2", "have:p1-meets-sent-p2",
+                        "have:p2-meets-sent-p1", "nohave:p2-meets-sent-b", "have:p2-meets-sent-b",
+                        "nohave:b-meets-sent-p2", "have:b-meets-sent-p1", "nohave:cancel-meets-sentP+sentB",
+                        "have:cancel-meets-sentP+sentB") if not have[c]]
+    if need:
+        ctx.broken("Mix family does not reach the classes %s (vacuous)" % need)
+        return None, None
+    ctx.log("G Mix family: %d schedules enumerated, %d classes, %d schedules replayed (every class >= %d times)" %
+            (len(mix_all), len(total), len(mix), 1 if ctx.quick else 3))
+    # (b) random walks of the model with the loop interleaved
     scheds = ctx.tlc_gen(SPEC, "GenBitswapMQ.tla", "GenBitswapMQ.cfg", simulate=4 if ctx.quick else 20,
                          depth=31 * (6 if ctx.quick else 12) + 1, timeout=1500)
     if not scheds:
-        return
-    scheds = DIRECTED + scheds
+        return None, None
+    scheds = DIRECTED + mix + scheds
+    for sc in scheds:            # (the model's annotations are for the runner only)
+        for st in sc["steps"]:
+            st.pop("st", None)
     binp = ctx.go_build(PKG, [PKG + "/zz_verif_C35_test.go"])
     inp = ctx.write_ndjson("schedules.ndjson", scheds)
     recsG, out, rc = ctx.go_run(binp, "TestVerifC35", pkg=PKG, infile=inp, mode="replay", timeout=900)
     summ = [r for r in recsG if r.get("summary")]
     if rc != 0 or not summ or summ[-1]["n"] != len(scheds):
         ctx.broken("schedule replay driver died (rc=%s): %s" % (rc, out[-1500:]))
-        return
+        return None, None
     recsG = [r for r in recsG if not r.get("summary")]
     ctx.sample(scheds[0])
     # ---- T: concurrent runs
@@ -145,7 +340,7 @@ def run(ctx):
                                          C35_CIDS=4 if ctx.quick else 10))
     if rc != 0 or not recsT:
         ctx.broken("record driver died (rc=%s): %s" % (rc, out[-1500:]))
-        return
+        return None, None
     for recs in (recsG, recsT):
         if any(r.get("ev") == "Bad" for r in recs):
             ctx.violation("want message carries blocks/presences/full flag", [r for r in recs if r.get("ev") == "Bad"][:3])
@@ -161,16 +356,19 @@ def run(ctx):
         else:
             run.append(r)
 
-    def corrupt(rs):
-        idx = [i for i, r in enumerate(rs) if r["ev"] == "Send" and any(not e["cancel"] for e in r["entries"])]
-        if not idx:
-            return None, None
-        i = idx[len(idx) // 2]
-        bad = [dict(r) for r in rs]
-        es = [dict(e) for e in bad[i]["entries"]]
-        j = [n for n, e in enumerate(es) if not e["cancel"]][0]
-        es[j]["t"] = 3 - es[j]["t"]          # want-have <-> want-block
-        bad[i]["entries"] = es
-        return bad, i
-    validate(ctx, recsG, "sched", negative=corrupt)
-    validate(ctx, recsT, "conc")
+    # ---- class coverage of what was really executed (evidence): type mixes on one CID x HAVE support x cancels
+    covG, covT = recorded_classes(recsG), recorded_classes(recsT)
+    ctx.cov["class_coverage"] = dict(
+        rule=("mix family: classes from the model's annotations (pN = peer want of type N, b = broadcast want-have; "
+              "'X-meets-sent/pending-Y' = request X arrives while Y for the same CID is on that list; 'filter-drops-have' "
+              "= no-HAVE filter with what is on the sent lists); recorded: kinds requested for one CID since its last "
+              "cancel, per run, from the Invoke events"),
+        mix_family_enumerated=dict(sorted(total.items())),
+        mix_family_replayed=dict(sorted((c, have[c]) for c in total)),
+        replayed_schedules=covG, concurrent_runs=covT)
+    ctx.log("class coverage (runs): replayed %s | concurrent %s" % (covG["runs"], covT["runs"]))
+    for nm, cv in (("replayed schedules", covG), ("concurrent runs", covT)):
+        for c in ("nohave:cancel-after-mix", "have:cancel-after-mix"):
+            if not cv["runs"].get(c):
+                ctx.broken("no %s with a type mix on one CID followed by its cancel for %s (vacuous)" % (nm, c))
+    return recsG, recsT
